@@ -218,7 +218,7 @@ def main():
                         status = "SURVIVED"
                         for p in props:
                             runs = max(500, int(RUNS[p] * scale))
-                            r = subprocess.run([os.path.join(V, "check"), p, "--runs", str(runs), "--max-seconds", "40", "--out", "/tmp/mutw_out/" + p, "--evidence", "/tmp/mutw_out/ev_%s.json" % p],
+                            r = subprocess.run([os.path.join(V, "check"), p, "--runs", str(runs), "--max-seconds", "40", "--item-timeout", "10", "--out", "/tmp/mutw_out/" + p, "--evidence", "/tmp/mutw_out/ev_%s.json" % p],
                                                env=dict(os.environ, VERIF_REPO=W, VERIF_FAST="1"), stdout=subprocess.PIPE, stderr=subprocess.STDOUT)
                             o = r.stdout.decode(errors="replace")
                             if r.returncode == 1:
